@@ -150,7 +150,9 @@ def gen(rng, tier, i):
     p.cfg('Port', '4000:' + kind)
     if cls == 'hostile':
         r = rng.random()
-        if r < 0.25: stream = b'X' * rng.choice((2040, 2047, 2048, 2049, 5000)) + b'\r\n' + b'ok\r\n'
+        if r < 0.12: stream = b'X' * rng.choice((2040, 2047, 2048, 2049, 5000)) + b'\r\n' + b'ok\r\n'
+        # an over-long line, and waiting behind it nothing but line ends (each of which the decoder writes as more bytes than it read)
+        elif r < 0.25: stream = b'X' * rng.choice((1500, 1665, 1700, 1921, 2000, 2047)) + rng.choice((b'\r\n', b'\r\0', b'\r\n\r\0')) * rng.choice((400, 700, 1000, 1400)) + b'ok\r\n'
         elif r < 0.45: stream = bytes((IAC, SB, 24, 0)) + b'A' * rng.choice((99, 100, 101, 5000))
         elif r < 0.6: stream = b'\xff' * rng.choice((1000, 7000))
         elif r < 0.75: stream = bytes(rng.randint(0, 255) for _ in range(rng.choice((500, 3000, 9000))))
